@@ -39,16 +39,6 @@ func replayOr(prop string, replay func(cj []byte) []ev.Violation) bool {
 		fmt.Fprintln(os.Stderr, err)
 		os.Exit(2)
 	}
-	vs := replay(cj)
-	fmt.Printf("replay of %s: case %s\n", p, string(cj))
-	if len(vs) == 0 {
-		fmt.Println("no violation on this tree")
-		os.Exit(0)
-	}
-	for _, v := range vs {
-		fmt.Printf("violation sig=%s: %s\n", v.Sig, v.Msg)
-	}
-	fmt.Printf("VIOLATION property=%s replay=%s\n", prop, p)
-	os.Exit(1)
+	os.Exit(ev.ReportReplay(prop, p, cj, replay(cj)))
 	return true
 }
